@@ -448,6 +448,7 @@ fn main() {
             if only.is_none() && (ctx.expired() || idx >= ctx.max_cases) {
                 break;
             }
+            seqio_verif::seqmon::trace_case(idx);
             let mut rng = Rng::derive(&[seed, shard, idx, 70]);
             // two thirds mock reader (tagged sets), one third real readers
             let use_real = idx % 3 == 2;
